@@ -1,6 +1,6 @@
 """Case generator and property-level oracle of the scalars2 family (C08, second half):
 congruences (cg), signs (sg), constants (ct), three-valued booleans (bv), small ranges (sr),
-interval x congruence (ic) and disjunctive intervals (di, oracle only).
+interval x congruence (ic) and disjunctive intervals (di).
 Case line:  <dom> <op> <A> [<B>]; operand syntax as in harness/scalars2.cpp."""
 import random, re
 
@@ -150,7 +150,12 @@ CORPUS = [
     "ic id 1:10/4:3", "ic id 1:2/10:5", "ic id 4:4/top", "ic meet 0:20/2:0 0:20/3:1",
     "ic div -7:-3/4:1 2:2/2", "ic srem -7:-3/4:1 2:2/2",
 ]
-DI_CORPUS = ["di div -7:-5 2:3", "di div -7:-5,5:7 2:3", "di meet 1:2,5:7 2:5", "di add 1:2,5:7 10:10",
+MANY = ",".join("%d:%d" % (2 * k, 2 * k) for k in range(51))          # 51 disjuncts: merged
+MANY49 = ",".join("%d:%d" % (3 * k, 3 * k + 1) for k in range(49))     # 49 disjuncts: kept
+DI_CORPUS = ["di id " + MANY, "di id " + MANY49, "di neg " + MANY49, "di join %s 200:200" % MANY49,
+             "di add 0:0,10:10,20:20,30:30,40:40,50:50,60:60,70:70 0:0,100:100,200:200,300:300,400:400,500:500,600:600,700:700",
+             "di widen %s 0:1,500:600" % MANY49, "di leq 6:7 " + MANY49, "di meet %s 10:40" % MANY49,
+             "di div -7:-5 2:3", "di div -7:-5,5:7 2:3", "di meet 1:2,5:7 2:5", "di add 1:2,5:7 10:10",
              "di ashr -5:-5 1:1", "di div 10:20,40:50 0:0,2:2", "di mul -oo:-1,1:+oo 0:0"]
 
 
@@ -254,7 +259,7 @@ def gen(seed, tier):
 
 
 def gen_di(seed, tier):
-    """disjunctive intervals: searched with the oracle only (no Coq model yet)"""
+    """disjunctive intervals (a stream of their own)"""
     rng = random.Random(seed * 17 + 3)
     quick = tier == "quick"
     lines = list(DI_CORPUS)
@@ -935,7 +940,7 @@ def oracle_di(t, line, ans, rng):
             for z in zs:
                 if not m(z):
                     return "%s = %s misses %d" % (line, ans, z)
-        if op == "id":
+        if op == "id" and t[2].count(",") < 40:   # 50 disjuncts and more are merged into their hull
             for x in A.samples:
                 for d in (-1, 1):
                     if m(x + d) and not A.member(x + d):
